@@ -81,6 +81,15 @@ EXPLANATION = (
     "self.fcfs's text for pseudoknotted structures (fcfs is not called there).")
 
 
+# glue functions of the property's observe_at list (contracts/glue_c.py; texts shared in props/_glue_text.py)
+from props import _glue_text as _GT
+DEDUCTIVE += [{"module": "rnapolis.annotator", "sidecar": "contracts.glue_c",
+               "targets": ["extract_secondary_structure", "add_common_output_arguments", "handle_output_arguments@prefix", "main@annotator"]}]
+TRUSTED = list(TRUSTED) + _GT.TRUSTED
+ASSUMPTIONS = list(ASSUMPTIONS) + _GT.ASSUMPTIONS
+EXPLANATION = EXPLANATION + _GT.C16
+
+
 def bounded(tier, seed):
     nmax = 7 if tier == "quick" else 9
     rng = rng_for(seed, "c16")
